@@ -144,6 +144,33 @@ def compiled_patterns(M, cfg, f):
     return out
 
 
+def pattern_uses(cfg, f):
+    """{(pattern string, 'match'|'search'|'fullmatch'): are parts of the match object consumed} for every use of a compiled
+    constant pattern on the abstract paths of f -- wherever the pattern is compiled (in the function, at module level)"""
+    uses = {}
+    for p in explore(cfg, f, None, None, 4000):
+        terms = [a for a, v in p.decisions]
+        if p.terminal[0] == "return":
+            terms.append(p.terminal[1].t)
+        for e in p.events:
+            terms += [a.t for a in e.args]
+            if e.recv is not None:
+                terms.append(e.recv.t)
+        for t in terms:
+            for x in subterms(t):
+                if not x or x[0] != "mcall":
+                    continue
+                if x[1] in ("match", "search", "fullmatch") and x[2] and x[2][0] == "call" and str(x[2][1]).endswith("re.compile") \
+                        and x[2][2] and x[2][2][0][0] == "const" and isinstance(x[2][2][0][1], str):
+                    uses.setdefault((x[2][2][0][1], x[1]), False)
+                if x[1] in ("group", "groups", "end", "span", "start", "groupdict") and x[2] and x[2][0] == "mcall" and \
+                        x[2][1] in ("match", "search", "fullmatch"):
+                    m = x[2]
+                    if m[2] and m[2][0] == "call" and str(m[2][1]).endswith("re.compile") and m[2][2] and m[2][2][0][0] == "const":
+                        uses[(m[2][2][0][1], m[1])] = True
+    return uses
+
+
 def consumed_compile_sites(f):
     """line numbers of re.compile(...) assignments whose match objects have .group/.end/.string consumed"""
     pat_vars = {}
@@ -299,14 +326,9 @@ def run(M, rep, tier, only=None):
         g = um.funcs.get(fname)
         if g is None:
             continue
-        consumed = consumed_compile_sites(g)
-        direct_use = {}
-        for n in ast.walk(g.node):
-            # pattern.match(...) returned / tested directly
-            if isinstance(n, ast.Call) and isinstance(n.func, ast.Attribute) and n.func.attr in ("match", "search", "fullmatch"):
-                pass
-        for site, pat in compiled_patterns(M, cfg, g):
-            line = int(site.split(":")[-1])
+        uses = pattern_uses(cfg, g)
+        for (pat, how), consumed_here in sorted(uses.items()):
+            site = "%s:%d" % (g.file, g.node.lineno)
             try:
                 parsed = sre_parse.parse(pat)
             except re.error as e:
@@ -315,10 +337,9 @@ def run(M, rep, tier, only=None):
             if fname == "is_atomic":
                 rep.check(R4, "is_atomic", starts_anchored(parsed) and ends_anchored(parsed),
                           "the atomic-unit pattern is not anchored at both ends", site=site)
-            how = {m for (l, m) in consumed if l == line}
-            if not how:
+            if not consumed_here:
                 continue
-            anchored = ends_anchored(parsed) or "fullmatch" in how
+            anchored = ends_anchored(parsed) or how == "fullmatch"
             found = []
             shadowed(parsed, True, anchored, found)
             found = sorted(set(found))
